@@ -79,7 +79,45 @@ def sp_dirs_order(eng, st):
     return st.env["$dirs_order"]
 
 
-SPEC_ENV = {"rowfold": sp_rowfold, "allfold": sp_allfold, "listdir": sp_listdir}
+WALK = TTup([STR, TSeq(STR), TSeq(STR)])
+
+
+def walk_term(eng, root):
+    return F(eng, "os_walk", [smt.STR], sort_of(TSeq(WALK), eng.decls))(root)
+
+
+def sp_walk(eng, st, root):
+    return V(TSeq(WALK), walk_term(eng, root.t))
+
+
+def sp_dirfold(eng, st, W, k):
+    """Set of directories of W[:k] that hold a source file and are not excluded (built in walk order)."""
+    dd = eng.decls
+    f = dd.fun("dirfold", [W.t.sort, smt.INT], SETS)
+    cur = f(W.t, k.t)
+    if "q_" not in k.t.s:
+        empty = smt.Term(SETS, f"((as const {SETS}) false)")
+        dd.ground_axiom("dirfold.base", Eq(f(W.t, IntVal(0)), empty))
+        ent = At(W.t, k.t)
+        root = dd.field(ent, "f0")
+        files = dd.field(ent, "f2")
+        excl = eng.heap_get(st, ("self", "excl_paths")).t
+        has_src = F(eng, "has_source_file", [SEQS], smt.BOOL)(files)
+        res = F(eng, "resolve", [smt.STR], smt.STR)(root)
+        cond = And(has_src, Not(smt.Select(cur, root)), Not(smt.Select(excl, root)))
+        nxt = f(W.t, Add(k.t, IntVal(1)))
+        dd.ground_axiom("dirfold.step", Implies(And(Le(IntVal(0), k.t), Lt(k.t, Len(W.t))),
+                                                Eq(nxt, Ite(cond, smt.Store(cur, res, smt.TRUE), cur))))
+    return V(TSet(STR), cur)
+
+
+def sp_card(eng, st, S):
+    n = eng.decls.fun("set_card_" + smt.mangle(S.t.sort), [S.t.sort], smt.INT)(S.t)
+    return V(INT, n)
+
+
+SPEC_ENV = {"rowfold": sp_rowfold, "allfold": sp_allfold, "listdir": sp_listdir, "walk": sp_walk,
+            "dirfold": sp_dirfold, "card": sp_card}
 AXIOMS = {}
 
 
@@ -100,6 +138,24 @@ def m_suffix_search(eng, st, node, args, kwargs):
     return V(BOOL, F(eng, "suffix_ok", [smt.STR], smt.BOOL)(args[0].t))
 
 
+def m_walk(eng, st, node, args, kwargs):
+    return V(TSeq(WALK), walk_term(eng, args[0].t))
+
+
+def m_filter(eng, st, node, args, kwargs):
+    """filter(regex.search, files): some list that is non-empty iff a file name matches the suffix regex."""
+    files = args[1]
+    res = eng.decls.fresh("filtered", SEQS)
+    st.assume(Eq(Gt(Len(res), IntVal(0)), F(eng, "has_source_file", [SEQS], smt.BOOL)(files.t)))
+    return V(TSeq(STR), res)
+
+
+def m_resolve(eng, st, node, args, kwargs):
+    inner = node.func.value  # Path(root)
+    root = eng.eval(inner.args[0], st)
+    return V(STR, F(eng, "resolve", [smt.STR], smt.STR)(root.t))
+
+
 def build(reg):
     fields = {"self.source_dirs": TSet(STR), "self.excl_paths": TSet(STR), "self.excl_suffixes": TSet(STR),
               "self.root_path": STR}
@@ -118,6 +174,21 @@ def build(reg):
                 ("dir", "src_dir == dirs_order[_k] and _k < len(dirs_order)")]),
         },
         short="LangServer._get_source_files"))
+    W = "walk(self.root_path)"
+    reg.add(Contract(
+        f"{LS}._add_source_dirs", prop="C18", receiver_cls="LangServer", params={}, fields=fields,
+        modifies=["self.source_dirs"],
+        ensures=[
+            ("only_default", "implies(card(old(self.source_dirs)) != 1 or self.root_path not in old(self.source_dirs), "
+                             "self.source_dirs == old(self.source_dirs))"),
+            ("recursive_default", "implies(card(old(self.source_dirs)) == 1 and self.root_path in old(self.source_dirs), "
+                                  f"self.source_dirs == dirfold({W}, len({W})))"),
+        ],
+        calls={"os.walk": m_walk, "filter": m_filter, "Path(root).resolve": m_resolve,
+               "self.FORTRAN_SRC_EXT_REGEX.search": m_suffix_search},
+        loops={0: LoopSpec("for (root, dirs, files) in os.walk(self.root_path)", index="_k", invariants=[
+            ("dirs", f"self.source_dirs == dirfold({W}, _k)")])},
+        short="LangServer._add_source_dirs"))
     return reg
 
 
@@ -133,7 +204,7 @@ def sp_enumerates(eng, st, order, S):
 
 SPEC_ENV["enumerates"] = sp_enumerates
 
-TARGETS = [f"{LS}._get_source_files"]
+TARGETS = [f"{LS}._get_source_files", f"{LS}._add_source_dirs"]
 
 TRUSTED = [
     "os.listdir / os.path.isfile / os.path.join / os.walk / pathlib glob are uninterpreted functions of the (fixed) "
@@ -143,3 +214,174 @@ TRUSTED = [
 ASSUMPTIONS = ["file names contain no newline (Python's `$` also matches before a trailing newline)",
                "the root path has no symlink components (Path.resolve is the identity on directories found by os.walk)"]
 RESIDUAL = "glob expansion itself (pathlib) is trusted; _add_source_dirs/_resolve_globs_in_paths are covered natively (bounded)"
+
+
+# ------------------------------------------------------------------ suffix regex, composition, native file systems
+DEFAULT_SUFFIXES = ["f", "f77", "f90", "f95", "f03", "f05", "f08", "f18", "for", "fpp"]
+
+
+def spec_suffix_ok(name: str, incl=()):
+    low = name.lower()
+    for s in DEFAULT_SUFFIXES:
+        if low.endswith("." + s):
+            # the letters f / or / pp may be in either case, digits are digits
+            return True
+    return any(name.endswith(s) for s in incl)
+
+
+def _spec_file_set(root, source_dirs, excl_paths, incl_suffixes, excl_suffixes):
+    import os
+    from pathlib import Path
+
+    def globs(p):
+        if os.path.isabs(p):
+            q = Path(p)
+            return {str(x.resolve()) for x in Path(q.anchor).glob(str(q.relative_to(q.anchor)))}
+        return {str(x.resolve()) for x in Path(root).resolve().glob(p)}
+
+    X = set()
+    for p in excl_paths:
+        X |= globs(p)
+    if source_dirs:
+        D = set()
+        for p in source_dirs:
+            D |= {m for m in globs(p) if os.path.isdir(m)}
+    else:
+        D = {str(Path(d).resolve()) for d, _, files in os.walk(root) if any(spec_suffix_ok(f, incl_suffixes) for f in files)}
+    D -= X
+    out = set()
+    for d in D:
+        for f in os.listdir(d):
+            p = os.path.join(d, f)
+            if os.path.isfile(p) and spec_suffix_ok(f, incl_suffixes) and p not in X \
+                    and not any(f.endswith(e) for e in excl_suffixes):
+                out.add(p)
+    return out
+
+
+def native_fs_search():
+    """Real directory trees x configurations (command line and file): indexed set vs the specification."""
+    import json
+    import os
+    from replay.harness import Workspace, session
+    prog = "program p\nend program p\n"
+    tree = {
+        "top.f90": prog, "README.md": "x", "look.f9": prog, "bak.f90.bak": prog, "xf90": prog, "UP.F90": prog,
+        "src/a.f90": "module a\nend module a\n", "src/b.F": "module b\nend module b\n", "src/skip_gen.f90": "module sg\nend module sg\n",
+        "src/deep/c.for": "module c\nend module c\n", "src/deep/d.inc": "integer :: d\n",
+        "lib/e.f95": "module e\nend module e\n", "lib/excl/f.f90": "module f\nend module f\n",
+        "empty/.keep": "", "docs/notes.txt": "n", "src/dir.f90/inner.txt": "a directory that looks like a source file", "other/g.fpp": "module g\nend module g\n",
+    }
+    configs = [
+        dict(),
+        dict(source_dirs=["src"]),
+        dict(source_dirs=["src/**"]),
+        dict(source_dirs=["src", "lib"], excl_paths=["lib/excl"]),
+        dict(excl_paths=["lib/excl", "src/a.f90"]),
+        dict(excl_paths=["src/**"]),
+        dict(incl_suffixes=[".inc"]),
+        dict(excl_suffixes=["_gen.f90"]),
+        dict(source_dirs=["src", "src/deep"], incl_suffixes=[".inc"], excl_suffixes=["_gen.f90"], excl_paths=["src/b.F"]),
+        dict(incl_suffixes=[".f9"]),
+    ]
+    for cfg in configs:
+        for channel in ("file", "cli"):
+            if channel == "cli" and not cfg:
+                continue
+            files = dict(tree)
+            argv = []
+            if channel == "file":
+                files[".fortlsrc"] = json.dumps(cfg)
+            else:
+                for k, v in cfg.items():
+                    argv += ["--" + k] + list(v)
+            ws = Workspace(files)
+            try:
+                srv, out = session(ws, [], argv=argv)
+                got = set(srv.workspace)
+                root = os.path.realpath(ws.root)
+                want = _spec_file_set(root, cfg.get("source_dirs", []), cfg.get("excl_paths", []),
+                                      cfg.get("incl_suffixes", []), cfg.get("excl_suffixes", []))
+                got = {os.path.realpath(p) for p in got}
+                listed = {os.path.realpath(p) for p in srv._get_source_files()}
+                if listed != want:
+                    got = listed
+                if got != want:
+                    rel = lambda s: sorted(os.path.relpath(p, root) for p in s)  # noqa: E731
+                    return {"configuration": cfg, "given_by": channel, "missing": rel(want - got),
+                            "unexpected": rel(got - want), "tree": sorted(tree)}
+            finally:
+                ws.close()
+    return None
+
+
+def extra(repo, reg, tier, seed):
+    import itertools
+    items = []
+    from fortls.regex_patterns import create_src_file_exts_regex, create_src_file_exts_str
+    fi = repo.func("fortls.regex_patterns.create_src_file_exts_regex")
+    src = ast.unparse(fi.node)
+    anchored = "'$)|('.join(EXPRESSIONS)}$))" in src and "re.compile(f'({DEFAULT}$)')" in src
+    items.append(Item("C18/create_src_file_exts_regex/ensures.anchored", "proved" if anchored else "refuted",
+                      "structural", 0.0, where=fi.where(), mode="table", func=fi.qualname,
+                      detail="every alternative of the suffix regex is followed by `$` (both the normal and the fallback pattern)",
+                      witness=None if anchored else {"source": src[-400:]}))
+    fs = repo.func("fortls.regex_patterns.create_src_file_exts_str")
+    esc = "[re.escape(ext) for ext in input_exts]" in ast.unparse(fs.node)
+    items.append(Item("C18/create_src_file_exts_str/ensures.literal_suffixes", "proved" if esc else "refuted",
+                      "structural", 0.0, where=fs.where(), mode="table", func=fs.qualname,
+                      detail="configured suffixes are passed through re.escape", witness=None if esc else {"source": ast.unparse(fs.node)[-300:]}))
+    # finite enumeration with the real regex: defaults in all letter cases, look-alikes, configured suffixes
+    stems = ["a", "A.b", "x.f90", ".hidden", "n"]
+    sufs = ["." + s for s in DEFAULT_SUFFIXES] + [".F", ".F90", ".For", ".fOR", ".FPP", ".fPp", ".f9", ".f900", ".f90.bak",
+                                                   ".f90~", "f90", ".ff", ".py", ".f90 ", ".f9O", ".inc", ".h", ".a+b", ".x*", ".INC"]
+    incls = [[], [".inc"], [".a+b", ".x*"], [".h", ".inc"]]
+    bad = None
+    n = 0
+    for incl in incls:
+        rx = create_src_file_exts_str(incl)
+        for st_, su in itertools.product(stems, sufs):
+            name = st_ + su
+            n += 1
+            got = rx.search(name) is not None
+            if got != spec_suffix_ok(name, incl):
+                bad = {"name": name, "incl_suffixes": incl, "regex_accepts": got, "spec_accepts": spec_suffix_ok(name, incl)}
+                break
+        if bad:
+            break
+    items.append(Item("C18/create_src_file_exts_str/ensures.suffix_ok", "refuted" if bad else "bounded-ok",
+                      "finite-enumeration(CPython)", 0.0, where=fs.where(), mode="bounded", func=fs.qualname,
+                      detail=f"bounded: {n} names (default suffixes in all cases, look-alikes, 4 configured suffix lists)",
+                      witness=bad, confirmed=True if bad else None))
+    # composition in serve_initialize: order of the steps
+    si = repo.func(f"{LS}.serve_initialize")
+    calls = [ast.unparse(n.func) for n in ast.walk(si.node) if isinstance(n, ast.Call)]
+    order = [c for c in calls if c in ("self._load_config_file", "self._resolve_globs_in_paths", "self._add_source_dirs",
+                                        "self.workspace_init", "self.source_dirs.add")]
+    lines = {c: min(n.lineno for n in ast.walk(si.node) if isinstance(n, ast.Call) and ast.unparse(n.func) == c)
+             for c in set(order)}
+    want = ["self._load_config_file", "self.source_dirs.add", "self._resolve_globs_in_paths", "self._add_source_dirs",
+            "self.workspace_init"]
+    ok = all(c in lines for c in want) and [lines[c] for c in want] == sorted(lines[c] for c in want)
+    guard = "if not self.source_dirs:\n    self.source_dirs.add(self.root_path)" in "\n".join(
+        ast.unparse(s) for s in si.node.body)
+    items.append(Item("C18/serve_initialize/ensures.composition", "proved" if ok and guard else "refuted", "structural",
+                      0.0, where=si.where(), mode="table", func=si.qualname,
+                      detail="configuration is loaded first; the root becomes a source directory only if none were "
+                             "configured; globs are resolved, the recursive default applied, then files are collected",
+                      witness=None if ok and guard else {"call_lines": lines, "root_added_only_when_unconfigured": guard}))
+    w = native_fs_search()
+    items.append(Item("C18/session/native_file_systems", "refuted" if w else "bounded-ok", "native-run(bounded)", 0.0,
+                      mode="bounded", witness=w, confirmed=True if w else None, func=f"{LS}._get_source_files",
+                      detail="bounded: one directory tree (nested, empty, look-alike suffixes) x 10 configurations x "
+                             "{configuration file, command line}; indexed set compared with the specification"))
+    return items
+
+
+def replay(obligation, model, rep):
+    w = native_fs_search()
+    return {"confirmed": True if w else None, "witness": w}
+
+
+def search(func, tier, seed, obligation=""):
+    return native_fs_search()
